@@ -36,6 +36,29 @@ ASSUMPTIONS = [
 SUBJECTS = sorted(K.KEYS)
 
 
+def ref_comp_from_uri(text):
+    """Independent reading of one URI component (the issuer id is given in URI form): [<type>=]value with %XX escapes, or a typed
+    number seg= / off= / v= / t= / seq=."""
+    alt = {'seg': 50, 'off': 52, 'v': 54, 't': 56, 'seq': 58}
+    typ = 8
+    if '=' in text:
+        head, rest = text.split('=', 1)
+        if head in alt:
+            return T.enc_tlv(alt[head], T.enc_nni(int(rest)))
+        if head.isdigit():
+            typ, text = int(head), rest
+    out = bytearray()
+    i = 0
+    while i < len(text):
+        if text[i] == '%':
+            out.append(int(text[i + 1:i + 3], 16))
+            i += 3
+        else:
+            out += text[i].encode()
+            i += 1
+    return T.enc_tlv(typ, bytes(out))
+
+
 class _Reentrant(Signer):
     """An issuing signer that writes a signed audit record (another Data packet) each time it is asked for a signature."""
 
@@ -91,7 +114,7 @@ def _case(draw):
         signer['kl'] = [[8, '6b']]
     return {'fn': fn, 'ident': ident, 'key_id': key_id, 'rep': draw(st.sampled_from([0, 1, 3, 5])),
             'subject': draw(st.sampled_from(SUBJECTS)), 'signer': signer,
-            'issuer': draw(st.one_of(st.sampled_from(['self', 'ndn', 'a.b', 'x-1']).map(lambda t: {'text': t}),
+            'issuer': draw(st.one_of(st.sampled_from(['self', 'ndn', 'a.b', 'x-1', 'a%2Fb', '%41%00', '32=k', 'v=7', 'seg=300', '300=x%2F']).map(lambda t: {'text': t}),
                                      S.component(10).map(lambda c: {'comp': c}))),
             'start': draw(_DATES), 'aware': draw(st.booleans()),
             'tz_min': draw(st.sampled_from([0, 0, 0, 540, -480, 330, 765, -720, 840])),
@@ -164,7 +187,7 @@ def _run_case(case):
                     r.discarded = True
                     return r
                 issuer_arg = case['issuer']['text'] if 'text' in case['issuer'] else S.comp_bytes(case['issuer']['comp'])
-                issuer_comp = T.enc_tlv(8, case['issuer']['text'].encode()) if 'text' in case['issuer'] else issuer_arg
+                issuer_comp = ref_comp_from_uri(case['issuer']['text']) if 'text' in case['issuer'] else issuer_arg
                 name, wire = derive_cert(key_name, issuer_arg, pub, signer, start, case['dur'])
             elif case['fn'] == 'self':
                 start = dt.datetime(1970, 1, 1)
